@@ -10,9 +10,9 @@ CONSTANTS
   OblTruthful = TRUE
   OblLockCover = TRUE
   OblDirtyRefused = TRUE
-  OblIdempotent = FALSE
+  OblIdempotent = TRUE
   OblFence = TRUE
-  OblP1Atomic = TRUE
+  OblP1Atomic = FALSE
   OblHonest = TRUE
   AllowXA = FALSE
   OblXATruthful = TRUE
